@@ -22,6 +22,47 @@ META["C03"] = {
     "require": {"quick": {"operators_covered": 45}, "thorough": {"operators_covered": 45}},
 }
 
+META["C04"] = {
+    "title": "Multi-input combinators follow the interleaving of their inputs",
+    "rule": "cases = (operator, local|_threads form, script A, script B, interleaving). Enumerated: all pairs of scripts with 0..n uniquely numbered items (quick n=3, thorough n=4) and terminal {none, complete, error}, optionally followed by post-terminal events, x ALL interleavings of the two scripts, for merge, zip, combine_latest, with_latest_from, take_until, skip_until, sample, buffer in both forms, both inputs hot Subjects driven from one thread; plus each pair with one input cold (create emitting at subscription); plus seeded random timelines with up to 6 items per input. Non-trivial: both inputs contributed an event and the scripts were really interleaved (some B event precedes some A event); distinct = hash of (operator, form, timeline).",
+    "assumptions": COMMON_ASSUME + [
+        "timeline reference model written from the property statement and operator docs; where they are silent the oracle accepts a set: zip/combine_latest may complete anywhere between 'no further output possible' and 'both inputs completed'; a skip_until notifier completing empty may or may not open the gate; after buffer's notifier completed either flush-and-complete or keep gathering; a take_until/skip_until notifier error may be ignored or propagated; sample may flush or drop an unsampled value when the source completes; buffer may emit or skip an empty buffer",
+    ],
+    "technique": "runtime monitoring: recording probe on the real combinators driven through all interleavings of two uniquely-numbered scripts, checked against an executable timeline model (set-valued where unspecified)",
+    "level_text": "Exploration: every enumerated interleaving and every sampled random timeline is executed on the real operators (both forms) and compared with the timeline model; unique ids make loss, duplication and mis-pairing directly visible.",
+    "level_note": "Trusted: the timeline model (harness/src/model.rs two_input_model) and its documented relaxations, the probe, rustc.",
+    "design_ref": "DESIGN.md §5 C04",
+    "require": {"quick": {"operators_covered": 16}, "thorough": {"operators_covered": 16}},
+}
+
+META["C01"] = {
+    "title": "Every subscriber sees items, then at most one terminal, then nothing",
+    "rule": "cases = seeded random pipelines (depth quick<=3 / thorough<=5 plus sub-chains) over the whole catalogue: 1-3 hot Subject inputs, stashed create() handles, cold and timed/async sources, single-input, two-input, flattening, scheduler, finalize, share operators; local and _threads builders; scripts with post-terminal events and repeated terminals through cloned handles; executed on the virtual clock under prompt/late schedules with FIFO or any-order task choice. Spy observers sit above/below multi-input and early-terminating operators; every subscription through a spy is its own observer id. A case is non-trivial when the final subscriber received a terminal and at least one input event was injected after it; distinct = hash(pipeline AST, scripts, flavour).",
+    "assumptions": COMMON_ASSUME + [
+        "by Rust ownership a linearly owned observer cannot be called after complete(self)/error(self); what the monitor guards is every place the library shares an observer (Rc/Arc<Option<O>>, Subscriber, subject publisher lists, merge_all's shared state). A change that only reorders notifications across DIFFERENT observers (e.g. group terminals after the outer terminal) is outside this property",
+        "cases in which the library panics are counted (cases_panicked) but judged by C05/C10, not here",
+    ],
+    "technique": "runtime monitoring: online regular-expression monitor `next* (error|complete)?` on every probe and spy observer of randomly generated real pipelines under an explorer-chosen schedule",
+    "level_text": "Exploration: the grammar monitor runs on every observer id of every sampled pipeline/schedule; held on the executions counted in the evidence.",
+    "level_note": "Trusted: recording probe/spy, pipeline generator, virtual clock and arena executor of the harness; rustc's ownership rules for linearly owned observers.",
+    "design_ref": "DESIGN.md §5 C01",
+    "require": {"quick": {"operators_covered": 80}, "thorough": {"operators_covered": 80}},
+}
+
+META["C02"] = {
+    "title": "After unsubscribe() returns the subscriber is never called again",
+    "rule": "cases = (random pipeline biased to scheduler-using operators, timed scripts, schedule seed, cut step, unsubscribe() | guard drop). A dry run finds the schedule length and the step of the first terminal; the cut is then placed uniformly before the terminal (5/6) or anywhere (1/6). After the cut the explorer keeps going: remaining events are injected, every pending timer fired, every ready task run. Non-trivial: cut before the terminal while a timer was pending, a task ready, or script events still to come; distinct = hash(pipeline, scripts, flavour, cut step, schedule seed). cut_* counters give the histogram of where cuts fell.",
+    "assumptions": COMMON_ASSUME + [
+        "deliveries are judged by their logical begin-stamp against the stamp taken when unsubscribe() returned (single-threaded part: nothing can be in flight at that moment)",
+        "the racing-thread part (emitter vs unsubscriber under the baton scheduler) is reported under the same check when present in the evidence (thread_* counters)",
+    ],
+    "technique": "runtime monitoring: post-unsubscribe monitor on the recording probe (no event stamped after unsubscribe() returned) over random real pipelines on a virtual clock with explorer-chosen task/timer order; baton-scheduled two-thread races for _threads forms",
+    "level_text": "Exploration: every sampled (pipeline, schedule, cut point) is executed and monitored; held on the executions counted in the evidence.",
+    "level_note": "Trusted: harness probe, virtual clock, arena executor, baton scheduler.",
+    "design_ref": "DESIGN.md §5 C02",
+    "require": {"quick": {"cut_with_pending_timer": 2000, "cut_with_ready_task": 1000}, "thorough": {"cut_with_pending_timer": 50000}},
+}
+
 
 # properties without a check yet are listed here with the reason; the list shrinks as checks land
 ALL_IDS = ['C01', 'C02', 'C03', 'C04', 'C05', 'C06', 'C07', 'C08', 'C09', 'C10', 'C11', 'C12', 'C13', 'C14', 'C15', 'C16', 'C17', 'C18', 'C19', 'C20']
